@@ -4,6 +4,7 @@
 #ifndef VERIF_C08_PEEK_HPP_
 #define VERIF_C08_PEEK_HPP_
 #include <cstdio>
+#include <filesystem>
 #include <string>
 #include <vector>
 #include "vh.hpp"
@@ -56,6 +57,9 @@ std::string dump_tree(const romea::core::KdTree<PointType> & kd)
 
 inline bool write_file(const std::string & path, const std::string & text)
 {
+  // a replayed case names the scratch directory of the run that recorded it: recreate it if needed
+  std::error_code ec;
+  std::filesystem::create_directories(std::filesystem::path(path).parent_path(), ec);
   FILE * f = std::fopen(path.c_str(), "w");
   if (!f) {return false;}
   std::fwrite(text.data(), 1, text.size(), f);
